@@ -178,6 +178,50 @@ def run_directed(ctx):
     return len(pairs)
 
 
+def run_cli_directed(ctx):
+    """command-line shapes enumerated rather than sampled: a failing CloudFormation resource that comes from an input-parameter file
+    longer than the data file (console excerpts), test-data directories that mix well-formed, truncated and empty files in every
+    order, rules directories with an unparsable file among good ones"""
+    import itertools
+    jobs, meta = [], []
+    rules = 'rule sized {\n  Resources.*[ Type == "AWS::S3::Bucket" ].Properties.Size >= 10 <<too small>>\n}\n'
+    params = {'Resources': {'b%d' % i: {'Type': 'AWS::S3::Bucket', 'Properties': {'Size': i, 'Name': 'n%d' % i}} for i in range(6)}}
+    for ptext, pname in ((json.dumps(params, indent=2), 'p.json'), (json.dumps(params), 'p1.json')):
+        for dtext in ('{"Other": 1}', '{}', '{"Other":\n 1}\n'):
+            d = os.path.join(ctx.wd, 'cli%d' % len(jobs))
+            files = {'r.guard': rules, 'd.json': dtext, pname: ptext}
+            e2e.write_files(d, files)
+            for extra in ([], ['-v'], ['-S', 'all', '-o', 'yaml'], ['--structured', '-o', 'json', '-S', 'none'], ['-p']):
+                jobs.append({'args': ['validate', '-r', 'r.guard', '-d', 'd.json', '-i', pname] + extra, 'cwd': d}); meta.append(('params-longer-than-data', jobs[-1]['args'], files))
+    good = json.dumps([{'name': 'c', 'input': {'x': 1}, 'expectations': {'rules': {'t': 'PASS'}}}])
+    kinds = {'good': good, 'truncated': good[:25], 'empty': '', 'notalist': '{"a": 1}', 'badyaml': 'a: [1, 2\n'}
+    for combo in itertools.permutations(['good', 'truncated', 'empty', 'notalist', 'badyaml', 'good'], 2):
+        d = os.path.join(ctx.wd, 'cli%d' % len(jobs))
+        files = {'r.guard': 'rule t {\n  x == 1\n}\n'}
+        for i, kd in enumerate(combo):
+            files['tests/r_%d_tests.yaml' % i] = kinds[kd]
+        e2e.write_files(d, files)
+        for fmt in ([], ['-o', 'json'], ['-o', 'yaml'], ['-o', 'junit']):
+            jobs.append({'args': ['test', '-a', '-r', 'r.guard', '-t', 'tests'] + fmt, 'cwd': d}); meta.append(('test-files %s' % (combo,), jobs[-1]['args'], files))
+    for combo in itertools.permutations(['rule a {\n  x == 1\n}\n', 'rule b {\n  x == \n', '', 'rule c {\n  x == 2\n}\n'], 3):
+        d = os.path.join(ctx.wd, 'cli%d' % len(jobs))
+        files = {'d.json': '{"x": 1}'}
+        for i, t in enumerate(combo):
+            files['rules/r%d.guard' % i] = t
+        e2e.write_files(d, files)
+        for extra in ([], ['--structured', '-o', 'json', '-S', 'none'], ['--structured', '-o', 'junit', '-S', 'none'], ['-o', 'yaml']):
+            jobs.append({'args': ['validate', '-a', '-r', 'rules', '-d', 'd.json'] + extra, 'cwd': d}); meta.append(('rules-dir', jobs[-1]['args'], files))
+    n = 0
+    for (what, args, files), (code, so, se) in zip(meta, e2e.run_many(jobs, timeout=30)):
+        n += 1
+        if code == 'timeout' or code in CRASH_CODES or (isinstance(code, int) and code < 0):
+            classify_crash(ctx, '%s: crashes with status %s: %s' % (what, code, se.decode('utf-8', 'replace').split('\n')[0][:200]),
+                           {'command': what, 'args': args, 'files': files, 'rules': files.get('r.guard', ''), 'data': files.get('d.json', ''), 'stderr': se[:600].decode('utf-8', 'replace')}, None)
+    ctx.coverage['directed_cli_runs'] = n
+    ctx.coverage['evaluations'] += n
+    return n
+
+
 PREFIX_TEXTS = [
     'let a = Resources.*[ Type == "AWS::S3::Bucket" ]\nrule r when %a !empty {\n  %a.Properties.Name == /^b/ <<named \'b\'>>\n  %a.Properties {\n    Size in r[1, 10) or\n    Tags[*].Key == "k\\"q"\n  }\n}\n',
     "rule chk(p, q) {\n  %p in ['a', \"b\"]\n  some %q[ keys == /x/ ] !empty\n}\nrule s {\n  chk(a.b, \"lit\")\n  not r or\n  AWS::X::Y when x exists {\n    y == {a: 1, 'b': [1.5, null, true]}\n  }\n}\n",
@@ -315,7 +359,7 @@ def run(ctx):
     n1 = model_correspondence(ctx, 2500 if thorough else 300)
     n2 = fuzz(ctx, 1500 if thorough else 150)
     n3 = run_directed(ctx)
-    n4 = run_prefixes(ctx)
+    n4 = run_prefixes(ctx) + run_cli_directed(ctx)
     ctx.coverage['distinct_nontrivial'] = n1 + n2 + n3 + n4
     ctx.coverage['rule'] = ('correspondence: generated programs with every feature on (rule-reference cycles 4%, captures, functions with arguments that select nothing or have the '
                             'wrong type, literal left-hand sides, chained filters, filters after this/index) x documents; fuzz: generated (rules, data, test spec, payload, parameter '
